@@ -3,6 +3,7 @@ from __future__ import annotations
 
 import json
 import os
+import random
 import sys
 from fractions import Fraction
 
@@ -33,7 +34,8 @@ def derive(case, obs):
     for g in obs["gens"]:
         rolls = [(r["env_steps"], r["learns"]) for r in g["rollouts"]]
         d = {"rolls": rolls, "tests": g["tests"], "select": g["select"], "mutation": g["mutation"],
-             "saves": g["saves"], "pre": g["pre"], "eval_steps": g["eval_steps"]}
+             "saves": g["saves"], "pre": g["pre"], "eval_steps": g["eval_steps"], "eval_resets": g.get("eval_resets", 0),
+             "saved_agents": g.get("saved_agents", {})}
         if len(rolls) == len(taken):
             taken = [t + r[0] for t, r in zip(taken, rolls)]
             learned = [t + r[1] for t, r in zip(learned, rolls)]
@@ -146,6 +148,31 @@ class C20(vlib.Driver):
         add(loop="maon", algo="IPPO", num_envs=4, learn_step=8, evo_steps=8, max_steps=32, pop=2, checkpoint=8)
         add(loop="maon", algo="IPPO", num_envs=2, learn_step=3, evo_steps=8, max_steps=48, pop=3, evo=True, mut="none", grouped=True)
         add(loop="maon", algo="IPPO", num_envs=2, learn_step=2, evo_steps=8, max_steps=32)
+        # --- deepening round: configurations no earlier case produced
+        #     memory readiness boundaries: size == learning_delay, size == batch_size exactly at an iteration
+        add(loop="off", algo="DQN", num_envs=2, learn_step=2, batch_size=2, learning_delay=4, evo_steps=10, max_steps=20, mem_cap=6)
+        add(loop="off", algo="DQN", num_envs=2, learn_step=4, batch_size=6, learning_delay=6, evo_steps=12, max_steps=24, mem_cap=6)
+        add(loop="maoff", algo="MATD3", num_envs=2, learn_step=4, batch_size=4, learning_delay=4, evo_steps=10, max_steps=20, mem_cap=4)
+        #     image observations with swap_channels=True (vectorised and plain)
+        add(loop="off", algo="DQN", image=True, num_envs=2, learn_step=2, evo_steps=6, max_steps=12)
+        add(loop="on", algo="PPO", image=True, num_envs=0, learn_step=3, evo_steps=6, max_steps=12, evo=True, mut="arch", pop=2)
+        add(loop="offline", algo="CQN", image=True, num_envs=2, evo_steps=2, max_steps=4)
+        #     multi-agent: per-agent scores (sum_scores=False), agent ids in a caller order that is not sorted, environment
+        #     dictionaries in another key order, grouped ids
+        add(loop="maoff", algo="MADDPG", num_envs=2, learn_step=2, max_steps=16, sum_scores=False, evo=True, mut="none", ids="unsorted")
+        add(loop="maon", algo="IPPO", num_envs=2, learn_step=4, max_steps=33, sum_scores=False, ids="unsorted", rev=True, evo=True, mut="hp")
+        add(loop="maoff", algo="MATD3", num_envs=0, learn_step=1, max_steps=16, rev=True, grouped=True, ids="unsorted", checkpoint=8)
+        add(loop="maon", algo="IPPO", num_envs=0, learn_step=2, evo_steps=6, max_steps=24, grouped=True, rev=True, sum_scores=False)
+        #     activation / architecture mutations followed directly by a checkpoint (reloaded by the harness), two evaluation episodes
+        add(loop="off", algo="DDPG", evo=True, mut="act", elitism=True, pop=3, max_steps=24, checkpoint=8, eval_loop=2, eval_steps=2)
+        add(loop="on", algo="PPO", evo=True, mut="arch", elitism=True, pop=3, learn_step=4, evo_steps=8, max_steps=24, checkpoint=8, save_elite=True)
+        add(loop="bandit", algo="NeuralTS", episode_steps=4, evo_steps=4, max_steps=12, evo=True, mut="arch", checkpoint=4, batch_size=2)
+        add(loop="maoff", algo="MADDPG", num_envs=2, learn_step=2, max_steps=24, evo=True, mut="arch", checkpoint=8, pop=3)
+        #     prioritised / n-step memories with the other off-policy algorithms (the loop's parameters are not algorithm specific)
+        add(loop="off", algo="DQN", memory="per", num_envs=2, learn_step=2, evo_steps=8, max_steps=16)
+        add(loop="off", algo="DQN", memory="nstep", num_envs=2, learn_step=2, evo_steps=8, max_steps=16)
+        add(loop="off", algo="DDPG", memory="per+nstep", num_envs=2, learn_step=2, evo_steps=8, max_steps=16)
+        add(loop="off", algo="TD3", memory="per", num_envs=1, learn_step=1, evo_steps=8, max_steps=16)
         # --- early stop (needs 99 generations: the cheapest loop)
         add(loop="bandit", algo="NeuralUCB", episode_steps=1, evo_steps=50, max_steps=150, target=-1.0, eval_steps=1, batch_size=4, learn_step=1)
         if tier == "thorough":
@@ -183,6 +210,21 @@ class C20(vlib.Driver):
             if rng.random() < 0.5:
                 c.update(evo=True, mut=rng.choice(["none", "hp", "hp", "param", "arch"]), elitism=rng.random() < 0.7,
                          mutate_elite=rng.random() < 0.3, tsize=rng.choice([1, 2, 3]))
+            if tier == "thorough":       # dimensions added in the deepening round (drawn after everything else: earlier seeds keep their cases)
+                r2 = random.Random(c["seed"])
+                if loop in ("maoff", "maon"):
+                    if r2.random() < 0.35:
+                        c["ids"] = "unsorted"
+                    if r2.random() < 0.35:
+                        c["rev"] = True
+                    if r2.random() < 0.3:
+                        c["grouped"] = True
+                    if r2.random() < 0.3 and not (c.get("grouped") and c["eval_loop"] > 1):
+                        c["sum_scores"] = False
+                elif loop in ("on", "offline") and r2.random() < 0.12:
+                    c["image"] = True
+                if c.get("evo") and r2.random() < 0.2:
+                    c["mut"] = "act"
             if rng.random() < 0.4:
                 c.update(checkpoint=rng.choice([S, S + 1, 2 * S, max(1, S // 2)]), overwrite=rng.random() < 0.3)
             cases.append(c)
@@ -261,6 +303,8 @@ class C20(vlib.Driver):
                 raise RuntimeError("could not build the components: " + str(obs.get("error")))
             et = (obs.get("error") or "").split(":")[0]
             kind = "plain-env" if plain(case) else "vec-env"
+            if loop == "off" and case.get("memory", "uniform") != "uniform":
+                kind += ":" + case["memory"]
             out.append(Violation("completes", f"completes:{loop}:{kind}:{self.site(case, obs)}:{et}:{algo}",
                                  f"{R.LOOPS[loop][1]} did not run to completion: {obs.get('error')} at {obs.get('where')}"))
             return out
@@ -326,23 +370,45 @@ class C20(vlib.Driver):
         # documented frequencies: learn_step ("learning frequency") once the memory is ready for the whole phase, and
         # evolution every generation (bandits: "evo_steps: evolution frequency (steps)", each time member 0 crosses a multiple)
         if loop in ("off", "maoff"):
+            # learn_step is the documented learning frequency; before the memory holds batch_size transitions (and more
+            # than learning_delay) nothing can be learned. Recomputed here iteration by iteration from the documented
+            # rule, independently of the Coq model (closed forms: theorems learn_schedule / learn_schedule_warmup).
             ne = ne_of(case)
             cap = case.get("mem_cap", 64)
             delay = case.get("learning_delay", 0)
-            warm = (case.get("n_step", 3) - 1) * ne if case.get("memory") in ("nstep", "per+nstep") else 0
-            stored = -warm
+            nst = case.get("n_step", 3) if case.get("memory") in ("nstep", "per+nstep") else 0
+            stored, calls = 0, 0
             n_it = case["evo_steps"] // ne
             for gi, d in enumerate(gens):
                 for pos, (t, r) in enumerate(zip(d["tests"], d["rolls"])):
                     ls_, bs_ = t["learn_step"], t["batch_size"]
-                    steady = stored >= bs_ and cap >= bs_ and (stored > delay if loop == "maoff" else min(stored, cap) > delay)
-                    if steady:
-                        want = -(-n_it // (ls_ // ne)) if ls_ > ne else n_it * (ne // ls_)
-                        if r[1] != want:
-                            out.append(Violation("learn-frequency", f"learn-frequency:{tag}",
-                                                 f"generation {gi} position {pos}: learn_step={ls_}, num_envs={ne}, {n_it} iterations on a ready memory "
-                                                 f"({stored} transitions stored, batch_size {bs_}, delay {delay}): {r[1]} learn calls, expected {want}"))
-                    stored += r[0]
+                    want = 0
+                    for i in range(n_it):
+                        calls += 1
+                        if nst == 0 or calls >= nst:
+                            stored += ne
+                        size = min(stored, cap)
+                        ok = size >= bs_ and ((stored if loop == "maoff" else size) > delay)
+                        if ls_ > ne:
+                            want += 1 if (ok and i % (ls_ // ne) == 0) else 0
+                        else:
+                            want += (ne // ls_) if ok else 0
+                    if r[1] != want:
+                        out.append(Violation("learn-frequency", f"learn-frequency:{tag}",
+                                             f"generation {gi} position {pos}: learn_step={ls_}, num_envs={ne}, batch_size={bs_}, delay={delay}, "
+                                             f"memory capacity {cap}, n_step {nst}: {r[1]} learn calls in {n_it} iterations, expected {want}"))
+        if loop == "bandit":
+            stored = 0
+            for gi, d in enumerate(gens):
+                for pos, (t, r) in enumerate(zip(d["tests"], d["rolls"])):
+                    want = 0
+                    for i in range(case["episode_steps"]):
+                        stored += 1
+                        if min(stored, case.get("mem_cap", 64)) >= t["batch_size"]:
+                            want += t["learn_step"]
+                    if r[1] != want:
+                        out.append(Violation("learn-frequency", f"learn-frequency:{tag}",
+                                             f"generation {gi} position {pos}: {r[1]} learn calls, expected {want} (learn_step={t['learn_step']}, batch_size={t['batch_size']})"))
         if loop in ("on", "maon"):
             for gi, d in enumerate(gens):
                 for pos, (t, r) in enumerate(zip(d["tests"], d["rolls"])):
@@ -350,6 +416,32 @@ class C20(vlib.Driver):
                     if r[1] != want:
                         out.append(Violation("learn-frequency", f"learn-frequency:{tag}",
                                              f"generation {gi} position {pos}: {r[1]} learn calls for evo_steps={case['evo_steps']}, learn_step={t['learn_step']} (expected {want})"))
+        if loop in ("on", "maon"):
+            ne = ne_of(case)
+            for gi, d in enumerate(gens):
+                for pos, (t, r) in enumerate(zip(d["tests"], d["rolls"])):
+                    # every rollout handed to learn() covers at least learn_step environment steps (and less than one more vector step)
+                    lo, hi = r[1] * t["learn_step"], r[1] * (t["learn_step"] + ne - 1)
+                    if not (lo <= r[0] <= hi):
+                        out.append(Violation("rollout-length", f"rollout-length:{tag}",
+                                             f"generation {gi} position {pos}: {r[0]} environment steps for {r[1]} rollouts of learn_step={t['learn_step']} (num_envs={ne})"))
+        if loop != "bandit":
+            for gi, d in enumerate(gens):
+                want = npop * case.get("eval_loop", 1)
+                if d["eval_resets"] != want:
+                    out.append(Violation("evaluation", f"evaluation:{tag}:episodes",
+                                         f"generation {gi}: {d['eval_resets']} evaluation episodes for {npop} agents with eval_loop={case.get('eval_loop', 1)}"))
+                    break
+        for rl in obs.get("reloaded", []):
+            saved = None
+            for d in gens:
+                if rl["file"] in d["saved_agents"]:
+                    saved = d["saved_agents"][rl["file"]]
+            if not rl["ok"]:
+                out.append(Violation("checkpoint", f"checkpoint:{tag}:reload-raises", f"{rl['file']} cannot be loaded: {rl['error']}"))
+            elif saved is not None and (rl["index"] != saved["index"] or rl["steps"] != saved["steps"]):
+                out.append(Violation("checkpoint", f"checkpoint:{tag}:reload-differs",
+                                     f"{rl['file']}: saved index {saved['index']} steps {saved['steps']}, loaded index {rl['index']} steps {rl['steps']}"))
         if case.get("evo"):
             count = 0
             for gi, d in enumerate(gens):
@@ -432,6 +524,7 @@ class C20(vlib.Driver):
         labs = [f"loop={case['loop']}", f"algo={case['algo']}", f"env={'plain' if plain(case) else 'vec' + str(case['num_envs'])}",
                 f"memory={case.get('memory', 'uniform') if case['loop'] == 'off' else '-'}",
                 f"evolution={case.get('mut') if case.get('evo') else 'off'}", f"checkpoint={'on' if case.get('checkpoint') else 'off'}",
+                f"obs={'image+swap_channels' if case.get('image') else 'vector'}",
                 f"generations={min(len(obs.get('gens', [])), 5)}{'+' if len(obs.get('gens', [])) > 5 else ''}",
                 f"completed={bool(obs.get('completed')) and not obs.get('error')}"]
         ne, ls = ne_of(case), case["learn_step"]
